@@ -47,7 +47,6 @@ def build(cfg, om=None):
     try:
         M = Model()
         M.cfg = cfg
-        wr = cfg["retail"]
         pop = cfg["pop"]
         kcm = cfg["kcals_daily"] * 30
         S = {}
@@ -68,7 +67,7 @@ def build(cfg, om=None):
             inputs["MAX_%s_AS_PERCENT_KCALS_BIOFUEL" % food] = b
         consts = dict(NMONTHS=N, STORE_FOOD_BETWEEN_YEARS=cfg["store"], POP=pop, KCALS_MONTHLY=kcm, BILLION_KCALS_NEEDED=pop * kcm / 1e9,
                       SEAWEED_KCALS=cfg["seaweed_kcals"], INITIAL_SEAWEED=0.01, MAXIMUM_DENSITY=3600, MINIMUM_DENSITY=1200, INITIAL_BUILT_SEAWEED_AREA=0.003, HARVEST_LOSS=20,
-                      SEAWEED_WASTE_RETAIL=wr, STORED_FOOD_WASTE_RETAIL=wr, MEAT_WASTE_RETAIL=wr, CROP_WASTE_RETAIL=wr, SCP_RETAIL_WASTE=wr, CELL_SUGAR_RETAIL_WASTE=wr,
+                      **waste_consts(cfg),
                       INITIAL_HARVEST_DURATION_IN_MONTHS=cfg["harvest_duration"], DELAY=dict(ROTATION_CHANGE_IN_MONTHS=cfg["rotation_delay"]),
                       OG_FRACTION_FAT=0.01, OG_FRACTION_PROTEIN=0.02, OG_ROTATION_FRACTION_FAT=0.012, OG_ROTATION_FRACTION_PROTEIN=0.021, inputs=inputs,
                       stored_food=NS(initial_available=NS(kcals=E(S["sf0"]))), meat_summed_consumption=acc)
@@ -146,6 +145,24 @@ def zz(x):
     return E.lift(x).z
 
 
-def W(cfg):
+WASTE_KEYS = dict(seaweed="SEAWEED_WASTE_RETAIL", stored_food="STORED_FOOD_WASTE_RETAIL", meat="MEAT_WASTE_RETAIL", crops_food="CROP_WASTE_RETAIL", methane_scp="SCP_RETAIL_WASTE",
+                  cellulosic_sugar="CELL_SUGAR_RETAIL_WASTE")
+
+
+def waste(cfg, food=None):
+    """retail waste percent of one food: cfg["retail"] for every food unless cfg["retail_by"] names the food (a mix-up of the per-food settings is then visible)"""
+    by = cfg.get("retail_by") or {}
+    if food is not None:
+        for pre in WASTE_KEYS:
+            if food.startswith(pre) and pre in by:
+                return by[pre]
+    return cfg["retail"]
+
+
+def waste_consts(cfg):
+    return {key: waste(cfg, pre) for pre, key in WASTE_KEYS.items()}
+
+
+def W(cfg, food=None):
     """gross-up factor for retail waste, written as the exact rational of 1/(1-w/100) computed like the code does (x * 1 / (1 - w/100))"""
-    return q(1) / q(1 - cfg["retail"] / 100)
+    return q(1) / q(1 - waste(cfg, food) / 100)
